@@ -84,6 +84,15 @@ def extract_regex(repo):
     return pattern, flags, method
 
 
+def method_used(repo):
+    """search / match / fullmatch as called anywhere in the methods of CheckHeader"""
+    cls = repo.find_class(R, "CheckHeader")
+    for node in ast.walk(cls.node):
+        if isinstance(node, ast.Call) and isinstance(node.func, ast.Attribute) and node.func.attr in ("search", "match", "fullmatch"):
+            return node.func.attr
+    return None
+
+
 # ------------------------------------------------------------------ template and mutation languages
 FN = "ABCDEFGHIJKLMNOPQRSTUVWXYZabcdefghijklmnopqrstuvwxyz0123456789_.-"
 LOGIN = "abcdefghijklmnopqrstuvwxyz0123456789-"
